@@ -93,7 +93,7 @@ func c05Conc(algo string, forced bool, scratch string, round int) string {
 	if err := r.open(); err != nil {
 		return "# CONC cannot open core: " + err.Error()
 	}
-	defer func() { r.core.Close() }()
+	defer func() { nCloseCore(r.core) }()
 	if forced {
 		var mu sync.Mutex
 		arrived := 0
